@@ -49,6 +49,10 @@ CHECKS = {
          'Encoder equals the reference string; decoder verdict and payload equal an independent BIP173 implementation on every mutated string, on '
          'checksum-valid strings over arbitrary 5-bit payloads (padding / length / version rules) and under related-but-different prefixes; every '
          '<=4-substitution corruption and every mixed-case rendering must be rejected.', TRUST),
+ 'C12': ('exploration', 'Hypothesis-generated histories of chain selections and actions; oracle = reference address strings (Base58Check / BIP173) and an independent chain table; cross-chain negative matrix enumeration',
+         'Round trip script -> address -> text -> address -> script against reference-built text under every chain and after arbitrary SelectParams '
+         'sequences; every text the reference does not classify as a standard address of the selected chain (other chains, witness v1..16, foreign '
+         'version bytes, wrong payload lengths, mutations, random strings) must raise CBitcoinAddressError; near-miss scripts must not alias.', TRUST),
  'C13': ('exploration', 'Hypothesis differential vs an independent pure-Python secp256k1 / strict-DER / Base58Check reference; exhaustive prefix-byte enumeration for public keys',
          'Public-key derivation, WIF text and round trip on all four chains, strict-DER low-S validity of fresh library signatures, verify() on a '
          'ten-class (r,s) matrix and is_fullyvalid on 14 malformed-key classes are compared with a reference written from the curve equation.', TRUST),
